@@ -37,7 +37,7 @@ RULE = (
 ASSUMPTIONS = [
     "patterns are Python regular expressions searched (re.search) in the project-relative POSIX path with default (case-sensitive) "
     "regex semantics - docs/file-placement-linter.md documents `[A-Z].*\\.py$` as 'files starting with uppercase'",
-    "directory keys are plain relative directory paths without trailing slash; the undocumented key '/' is not generated",
+    "directory keys are plain relative directory paths, now and then with a trailing slash (same directory); the undocumented key '/' is not generated",
     "only the generated tree's files are judged; verdicts for the config carrier files themselves are ignored",
     "--rules and --config carry the same document as .thailint.yaml ({'file-placement': {...}})",
     "file contents are empty; `ignore` lists are not generated (C14 covers file selection)",
@@ -99,7 +99,8 @@ def rule_sets(draw):
     cfg = {}
     keys = draw(st.lists(st.sampled_from(KEYS), min_size=0, max_size=3, unique=True))
     if keys or draw(st.integers(0, 5)) == 0:
-        cfg["directories"] = {k: draw(rule()) for k in keys}
+        # a key may be written with a trailing slash (`src/`): it names the same directory, in whatever order the keys come
+        cfg["directories"] = {(k + "/" if draw(st.integers(0, 3)) == 0 else k): draw(rule()) for k in keys}
     if draw(st.integers(0, 2)) == 0:
         cfg["global_deny"] = draw(_deny_items(2))
     if draw(st.integers(0, 2)) == 0:
